@@ -41,6 +41,7 @@ def worlds(tier):
         w.W("join-2cpu-LSF", w.join(), w.C2, "LSF", split=6, weight=20),
         w.W("chain2-havoc-drop-skipped", w.fixed_times(w.chain(2)), w.C1, "HAVOC", split=6, drop_skipped=True, havoc=dict(hv, release_taskgraphs=True), tasks=small(("T0", "T1"))),
         w.W("indep2-havoc-unplaced-then-placed", w.fixed_times(w.indep(2)), w.C2, "HAVOC", split=6, havoc=dict(hv, future=False, first_pool_only=True), tasks=small(("T0", "T1"))),
+        w.W("chain2-EDF-symbolic-timeout-and-deadline", w.chain(2, release=0), w.C1, "EDF", timeout=["sym", 0, 12], split=7, weight=60, tasks=small(("T0", "T1"))),
         w.W("indep2-EDF-symbolic-timeout", w.indep(2, deadline=10 ** 6), w.C1, "EDF", timeout="sym", split=7, weight=60),
     ]
     if tier == "thorough":
